@@ -45,7 +45,8 @@ def _cases_for_version(args):
         if not rows or seg == "MSH":
             continue
         idx = [r["i"] for r in rows if r["max"] != 0 and not (r["kind"] != "base" and False)]
-        idx = [r["i"] for r in rows if not (v in ("2.7", "2.8.2") and r["name"] == "PV1_52") and not (v == "2.1" and seg == "RX1")]
+        idx = [r["i"] for r in rows if not (v in ("2.7", "2.8.2") and r["name"] == "PV1_52") and not (v == "2.1" and seg == "RX1")
+               and not (v == "2.1" and r["name"] == "ORO_3")]     # rows with a listed table defect are probed one by one only
         if not idx:
             continue
         order = list(idx)
